@@ -21,6 +21,12 @@ def run():
     verdicts, _ = ctx.validate(trace, how["mon"], consts=how.get("consts"), reset_with_state=how.get("reset_with_state", False))
     v = verdicts.get(sc["id"], {})
     bad = v.get("bad", [])
+    if how.get("tracespec") == "DownMeta":
+        # the violation was a trace that no behaviour of DownMeta.tla explains: validate the new trace against the specification as well
+        import downscripts as D
+        by, _ = ctx.load_trace(trace)
+        if D.trace_validate_meta(ctx, how["filters"], {sc["id"]: D.meta_trace_lines(by.get(sc["id"], []), sc["id"])}):
+            bad = bad + ["TraceRejected"]
     log("replay of %s (property %s, originally clause %s): clauses now = %s" % (sc["id"], r["property"], r.get("clause"), bad))
     if how.get("reset_with_state"):
         log("note: relational clauses need the paired solo run; only the direct clauses are evaluated in a replay")
